@@ -1,3 +1,4 @@
 pub mod buztable;
 pub mod chunker;
 pub mod format;
+pub mod encoder;
